@@ -134,6 +134,22 @@ def gen_contexts(run):
         n += 1
     run.states += n
     run.transitions += n
+    # every template (IF / ON / FOR / READ ones included) x operand shape directly after a line that is not an ordinary
+    # statement (remark, CLEAR, DATA, an IF whose branch is a remark): calls hoisted out of the template have nothing to attach to there
+    from vf.gen import catalogue as K
+    m = 0
+    for before in ("REM X", "CLEAR 200", "B = 2 ' X", "DATA 1", "IF A = 1 THEN REM X"):
+        for name, body, after in K.TEMPLATES:
+            seen = set()
+            for how, sh in spaces.template_combos(body, full=False):
+                text = K.template_program(K.fill(body, sh), after, before=[before])
+                if text in seen:
+                    continue
+                seen.add(text)
+                cases.append({"text": text, "opts": {}, "origin": f"after[{before}]:{name}:{how}", "gen": "ctx"})
+            m += len(seen)
+    run.states += m
+    run.transitions += m
     return cases
 
 
